@@ -196,6 +196,7 @@ def Bounds.checkObj (b : Bounds) : Obj → Res
 inductive BoundMap where
   | all (b : Bounds)
   | byKey (m : List (Nat × Bounds))
+  | withDefault (m : List (Nat × Bounds)) (d : Bounds)   -- an explicit defaultdict: listed keys, else the factory's checker
 deriving DecidableEq, Repr, Inhabited
 
 def BoundMap.get : BoundMap → Nat → Bounds
@@ -203,6 +204,9 @@ def BoundMap.get : BoundMap → Nat → Bounds
   | .byKey m, k => match m.lookup k with
     | some b => b
     | .none => Bounds.none
+  | .withDefault m d, k => match m.lookup k with
+    | some b => b
+    | .none => d
 
 /-! ### helpers -/
 
